@@ -4,7 +4,7 @@
    switch, bank and music loads, accepted and rejected) is executed on spec/Settings.tla and every
    transition is judged by the same predicates the trace specification applies to the real library.
    Fix = {} is the code as it stands (TLC then reports the store-before-validate defects);
-   Fix = {"numchips", "trackopt"} is the repaired design.  WithDumper adds the VGM-dumper
+   Fix = {"numchips", "trackopt", "dumper"} is the repaired design.  WithDumper adds the VGM-dumper
    pseudo-emulator, which takes the loop hooks and forces "loop hooks only" by design.
    In -simulate mode Emit prints BEHAVIOUR lines (indices into Ops) that are replayed on the library. *)
 EXTENDS Settings, Json
@@ -38,8 +38,9 @@ NOps == IF WithDumper THEN Len(Ops) ELSE Len(Ops) - 1
 Init == S = Derive(S0) /\ R = R0 /\ viol = {} /\ hist = <<>>
 Next == \E i \in 1..NOps :
   LET ev == Ops[i]
-      x == ModelStep(S, ev, Fix)
-      R1 == RefStep(R, ev, x.r)
+      x0 == ModelStep(S, ev, Fix)
+      R1 == RefStep(R, ev, x0.r)
+      x == [x0 EXCEPT !.s.ho = IF @ = -1 THEN R1.ho ELSE @]      \* the repaired design restores the user's value
   IN /\ S' = x.s /\ R' = R1 /\ hist' = Append(hist, i)
      /\ viol' = viol \cup (IF x.r = -99 THEN {"crash:" \o ev.e}
                          ELSE CallFails(S, ev, x.r, x.s, R) \cup ForceFails(x.s, R1) \cup ReloadFails(ev, x.r, R))
